@@ -8,6 +8,7 @@ package fpgo
 //     them with n <= 3 (thorough 4), p <= 2. Nothing here touches unexported fields: a representation change that
 //     keeps the behaviour cannot raise an alarm.
 // (B) bounded histories from NewLinkedListQueue(): K operations + drain (directly replayable public-API runs).
+// (C) pool maintenance (KeepNodePoolCount / ClearNodePool) on a pool of 2..3 nodes followed by a burst of 2..4 insertions.
 // sync.Pool.Get is nondeterministic (fresh node or any node previously Put), explored as a decision.
 // KeepNodePoolCount(n): n is a symbolic int with n <= 2 (thorough 3), unbounded below.
 
@@ -159,6 +160,31 @@ func vh_C06_MixedEnds() {
 		}
 	}
 	c06Apply("", "Offer", q, m)
+	c06Drain(q, m, vfChoose("drain", 4))
+	vfReach("end")
+}
+
+// node-pool maintenance followed by a burst of insertions: from "n values queued, p recycled nodes pooled" (p = 2..3)
+// the pool is cut or grown with KeepNodePoolCount(k) (k symbolic) or ClearNodePool, then 2..4 values are inserted at
+// either end without any removal in between - so the kept nodes, whatever they still point at, and whatever sync.Pool
+// hands back are all reused - and the whole is drained against the ideal deque
+func vh_C06_PoolCutThenBurst() {
+	n := vfRange("n", 0, 1)
+	p := vfRange("p", 2, 3)
+	q, m := c06Canonical(n, p)
+	if vfChoose("maintenance", 3) == 2 {
+		c06Apply("", "ClearNodePool", q, m)
+	} else {
+		c06Apply("", "KeepNodePoolCount", q, m)
+	}
+	burst := vfRange("burst", 2, 4)
+	for i := 0; i < burst; i++ {
+		if vfChoose("end", 2) == 0 {
+			c06Apply("burst/", "Offer", q, m)
+		} else {
+			c06Apply("burst/", "Unshift", q, m)
+		}
+	}
 	c06Drain(q, m, vfChoose("drain", 4))
 	vfReach("end")
 }
